@@ -298,6 +298,9 @@ Definition tok_eqb (a b : tok) : bool :=
 Definition stream_wf (ts : list tok) : bool :=
   match parse ts with Some t => jt_ok t && list_eqb tok_eqb (toks_of t) ts | None => false end.
 
+(* the same without the re-serialisation test: implied (proofs/SpansJsonProofs.v parse_only_toks_of: what parse accepts IS the token list of its tree) *)
+Definition stream_ok (ts : list tok) : bool := match parse ts with Some t => jt_ok t | None => false end.
+
 (* ------------------------------------------------------------------ what the text demands of kind and events (independent of the read path's code) *)
 Definition nodup_names {A} (fs : list (string * A)) : bool :=
   (fix go (l : list string) : bool := match l with [] => true | k :: r => negb (existsb (String.eqb k) r) && go r end) (map fst fs).
